@@ -78,6 +78,7 @@ struct PipeCfg
   int refill = 0; // hash file-buffer refill size in 64-byte units; 0 = leave the build's default
   SchedSpec sched;
   int outbuf = 0; // stdio buffering of the output stream: 0 default, 1 unbuffered, 2 64-byte buffer
+  int inbuf = 0;  // stdio buffering of the input stream: 0 default, 1 unbuffered
   bool want_events = false;
   bool want_log = false;
   long in_fail_at = -1; // >= 0: reads of the input stream at or beyond this offset fail with EIO
